@@ -187,10 +187,17 @@ Definition check (c : sx) : verdict :=
      code 0 ok | 1 width | 3 read-back / not empty | 5 panic *)
   | SList [SList [SList [SInt 9; SInt _; SInt _]]; SList [SInt _; SList [SList [SInt 9; SInt code; SInt _]]]] =>
       if code =? 0 then VOk else if code =? 1 then VPropFail 1 else if code =? 4 then VPropFail 4 else VPropFail 3
+  (* histories evaluated in Go against a per-buffer FIFO reference (harness/cmd/c19: phases, multi):
+     (12 seed big) one buffer through backlog / complete drain / reuse phases -> (12 code phase);
+     (13 seed nbuf steps) nbuf buffers interleaved in one goroutine -> (13 code step);
+     code 0 ok | 1 width | 3 read-back | 4 peek | 5 panic *)
+  | SList [SList [SList [SInt 12; SInt _; SInt _]]; SList [SInt _; SList [SList [SInt 12; SInt code; SInt _]]]]
+  | SList [SList [SList [SInt 13; SInt _; SInt _; SInt _]]; SList [SInt _; SList [SList [SInt 13; SInt code; SInt _]]]] =>
+      if code =? 0 then VOk else if code =? 1 then VPropFail 1 else if code =? 4 then VPropFail 4 else VPropFail 3
   (* private buffers on concurrent goroutines, evaluated in Go (harness/cmd/c19: concurrent):
-     (11 seed goroutines rounds) -> (11 code 0), code 0 ok | 1 width | 3 read-back | 5 panic *)
+     (11 seed goroutines rounds) -> (11 code 0), code 0 ok | 1 width | 3 read-back | 4 peek | 5 panic *)
   | SList [SList [SList [SInt 11; SInt _; SInt _; SInt _]]; SList [SInt _; SList [SList [SInt 11; SInt code; SInt _]]]] =>
-      if code =? 0 then VOk else if code =? 1 then VPropFail 1 else VPropFail 3
+      if code =? 0 then VOk else if code =? 1 then VPropFail 1 else if code =? 4 then VPropFail 4 else VPropFail 3
   (* the exact-length sweep around 2^k evaluated in Go (harness/cmd/c19: boundary): (10 k) -> (10 code L),
      code 0 ok | 1 width | 2 layout | 3 read | 4 peek | 5 panic *)
   | SList [SList [SList [SInt 10; SInt _]]; SList [SInt _; SList [SList [SInt 10; SInt code; SInt _]]]] =>
